@@ -148,6 +148,75 @@ def _case(top, alt, cmd):
         return rt.ok()
 
 
+class AdversaryHook(object):
+    """another actor makes $topdir/.Trash insecure just before the k-th system call of the run"""
+
+    def __init__(self, k, action):
+        self.k, self.action, self.done = k, action, False
+
+    def __call__(self, model, name, args, impl):
+        if not self.done and model.nops == self.k:
+            self.done = True
+            n = model.lookup('/v/.Trash', False)
+            if self.action == 'drop-sticky':
+                n.mode = 0o777
+            elif self.action == 'replace-by-link':
+                parent = model.lookup('/v', False)
+                moved = parent.children.pop('.Trash')
+                parent.children['.Trash-moved-away'] = moved
+                model.add('/v/.Trash', 'l', 0o777, '.Trash-moved-away')
+        return model.run_op(name, args, impl)
+
+
+ACTIONS = ['drop-sticky', 'replace-by-link']
+
+
+def _midrun(k, action, interactive):
+    """trash-put a b c on a volume whose .Trash is secure at first and turns insecure before system call k"""
+    with rt.untraced():
+        nodes = [W.d('/h'), W.d('/v/d'), W.d('/v/.Trash', 0o1777), W.f('/v/keep', 'KEEP', 0o644, 800)]
+        for nm in 'abc':
+            nodes.append(W.f('/v/d/' + nm, 'DATA-' + nm, 0o644, 1000 + ord(nm)))
+        nodes += K.trashed('/v/.Trash/1000', 'old', 'd/old', '2019-01-01T00:00:00', 'file', 2000)
+        m = W.build_model(W.W(mounts=K.MOUNTS, cwd='/v/d', nodes=nodes))
+        args = (['-i'] if interactive else []) + ['a', 'b', 'c']
+        step = C('put', args, scen.env(), stdin=['y', 'y', 'y'], cwd='/v/d')
+        probe = m.clone()
+        _, r0 = scen.run_model(None, [step], model=probe)
+        n = r0[0]['ops']
+        if k > n:
+            rt.begin()
+            return rt.ok()
+        rt.begin(('midrun', k, n, ACTIONS[action], interactive))
+        _, r = scen.run_model(None, [step], hook=AdversaryHook(k, ACTIONS[action]), model=m)
+        if r[0]['exc']:
+            return rt.fail('C08:traceback:midrun:' + r[0]['exc'].split(':')[0], r[0]['exc'])
+        log = m.oplog
+        starts = {}
+        for i, op in enumerate(log):
+            if op[0] == 'lstat' and op[1] in ('a', 'b', 'c') and op[1] not in starts:
+                starts[op[1]] = i
+        snap = m.snap('/')
+        for nm in 'abc':
+            st = starts.get(nm)
+            if st is None or st < k:
+                continue  # its processing began before .Trash changed: a check-then-use race is unavoidable there
+            for d in ('/v/.Trash/1000/files/', '/v/.Trash-moved-away/1000/files/'):
+                if scen.sub(snap, d + nm) is not None:
+                    return rt.fail('C08:insecure-dir-used-after-it-became-insecure',
+                                   "%s: $topdir/.Trash became insecure (%s) before system call %d; the processing of %r began at call %d, "
+                                   'yet it was trashed into %s' % ('trash-put ' + ' '.join(args), ACTIONS[action], k, nm, st, d))
+        return rt.ok()
+
+
+def w_midrun(k: int, action: int, interactive: bool) -> str:
+    """
+    pre: 0 <= k < 200 and 0 <= action < 2
+    post: _ == ''
+    """
+    return _midrun(rt.sel(k, 200), rt.sel(action, 2), rt.selb(interactive))
+
+
 def w_main(top: int, alt: int, cmd: int) -> str:
     """
     pre: 0 <= top < 6 and 0 <= alt < 3 and 0 <= cmd < 11
@@ -164,4 +233,7 @@ def obligations(tier):
         CH('W_state_x_alt_x_cmd', MOD, 'w_main', timeout=600, engine='W', regime='selector',
            encodes=K.PUT_FUNCS + K.LIST_FUNCS + K.RESTORE_FUNCS + K.EMPTY_FUNCS + K.RM_FUNCS, stubs=K.STUBS,
            bounds='6 .Trash states x 3 .Trash-uid states x 11 command/argument combinations (all five commands)'),
+        CH('W_put_rechecks_per_argument', MOD, 'w_midrun', timeout=900, engine='W', regime='selector', encodes=K.PUT_FUNCS, stubs=K.STUBS,
+           bounds='trash-put a b c (with/without -i); .Trash turns insecure (sticky bit dropped | replaced by a symlink) before system call k, k in 0..199 '
+                  '(runs are shorter: checked); an argument whose processing starts after that instant must not land in .Trash/$uid'),
     ]
